@@ -99,6 +99,22 @@ Section ListObjects.
         if Nat.ltb (length sent) limit then Failed else Objects sent
     end.
 
+  (* 6a. Execute distinguishes the errors it receives on the results channel:
+            if errors.Is(result.Err, condition.ErrEvaluationFailed) { errs = errors.Join(errs, result.Err); continue }
+            return nil, serverErrors.HandleError("", result.Err)        (depth: ...TooComplex)
+        only condition-evaluation errors are collected (and then dropped or reported as in 6);
+        every other error — a datastore read failure during reverse expansion or during a confirming
+        Check — fails the request whatever was sent before. *)
+  Inductive errkind := CondError | OtherError.
+
+  Definition execute_k (cands : list cand) (check : A -> bool) (limit : nat) (arrival : list nat)
+             (err : option (nat * errkind)) : response :=
+    match err with
+    | None => execute cands check limit arrival None
+    | Some (k, CondError) => execute cands check limit arrival (Some k)
+    | Some (_, OtherError) => Failed
+    end.
+
   Definition execute_streamed (cands : list cand) (check : A -> bool) (arrival : list nat)
              (err_after : option nat) : list A * bool (* sent, failed *) :=
     match err_after with
